@@ -368,10 +368,14 @@ def _worker(args):
         r.status = "crash"
         r.reason = repr(e)
     # replay refutations natively in the worker (same tree the VCs came from)
+    seen_names = {}
     for ob in r.obligations:
         if ob.status == "refuted":
             try:
-                rep = native_replay_isolated(module_name, unit_name, ob.model)
+                # the first replays of each obligation run in a forked child (clean process image); when the same
+                # obligation is refuted on very many paths the rest are replayed in-process
+                seen_names[ob.name] = seen_names.get(ob.name, 0) + 1
+                rep = (native_replay_isolated if seen_names[ob.name] <= 3 else native_replay)(module_name, unit_name, ob.model)
                 ob.replay = {"confirmed": confirm(ob.name, rep), **rep}
             except BaseException as e:
                 ob.replay = {"confirmed": False, "error": repr(e)[:500]}
